@@ -94,7 +94,7 @@ theorem propose_pick_eq (pc : List Pos) (asc : List Nat) (p : Pos) (h : propose_
       simpa [List.head?_eq_getElem?] using hh
 
 /-- `_training` of the three surrogate classes makes exactly the draws the model's `trainTape` makes: none for Bayes and TPE,
-    a `move_random` on an empty `Y_sample` for Forest (the model's flag `trainsOnEmpty` is thereby read off the source) -/
+    and - after its fix - Forest (whose `if len(Y_sample) == 0` now raises the ValueError that `_propose_location` turns into a random iteration; before, it drew a `move_random` and went on to predict with an unfitted regressor: the model's flag `trainsOnEmpty`) -/
 theorem bayes_training_eq (cfg : SmboCfg) (s : SmboSt) (h : cfg.trainsOnEmpty = false) :
     trainTape cfg s = BayesianOptimizer_training_draws (decide (s.sm.Y = [])) s.tape := by
   unfold trainTape BayesianOptimizer_training_draws; simp [h]
@@ -103,13 +103,16 @@ theorem tpe_training_eq (cfg : SmboCfg) (s : SmboSt) (h : cfg.trainsOnEmpty = fa
     trainTape cfg s = TreeStructuredParzenEstimators_training_draws (decide (s.sm.Y = [])) s.tape := by
   unfold trainTape TreeStructuredParzenEstimators_training_draws; simp [h]
 
-theorem forest_training_eq (cfg : SmboCfg) (s : SmboSt) (h : cfg.trainsOnEmpty = true) :
+theorem forest_training_eq (cfg : SmboCfg) (s : SmboSt) (h : cfg.trainsOnEmpty = false) :
     trainTape cfg s = ForestOptimizer_training_draws (decide (s.sm.Y = [])) s.tape := by
-  unfold trainTape ForestOptimizer_training_draws
-  by_cases hy : s.sm.Y = []
-  · simp only [h, hy, and_self, if_true, decide_true]
-    cases moveRandomLoop s.tape <;> rfl
-  · simp [h, hy]
+  unfold trainTape ForestOptimizer_training_draws; simp [h]
+
+/-- without a valid sample LipschitzOptimizer proposes a random position (after its fix) - as the model does -/
+theorem lipschitz_empty_sample (cfg : SmboCfg) (s : SmboSt) (hl : cfg.lipschitz = true) (hx : s.sm.X = []) :
+    lipschitz_empty_sample_fallback = true ∧ smboPropose cfg s = moveRandomLoop s.tape := by
+  refine ⟨rfl, ?_⟩
+  unfold smboPropose
+  simp [hl, hx]
 
 /-- LipschitzOptimizer's own `iterate` selects like `_propose_location` -/
 theorem lipschitz_pick_eq (pc : List Pos) (asc : List Nat) : lipschitz_pick pc asc = propose_pick pc asc := rfl
